@@ -174,8 +174,8 @@ theorem escapeText_fmtDec (n : Nat) : escapeText (fmtDec n) = fmtDec n :=
 theorem escapeText_fmtInt (i : Int) : escapeText (fmtInt i) = fmtInt i := by
   unfold fmtInt
   split
-  · rw [escapeText_cons, escapeText_fmtDec]
-    decide
+  · rw [escapeText_cons, escapeText_fmtDec, show escapeTextByte 45 = [45] by decide]
+    rfl
   · exact escapeText_fmtDec _
 
 theorem escape_fmtInt (i : Int) : escape (fmtInt i) = fmtInt i := by
